@@ -32,6 +32,7 @@ import (
 	"github.com/sanonone/kektordb/internal/verifkit"
 	"github.com/sanonone/kektordb/pkg/core/distance"
 	"github.com/sanonone/kektordb/pkg/core/hnsw"
+	"github.com/sanonone/kektordb/pkg/core/types"
 	"github.com/sanonone/kektordb/pkg/engine"
 	"github.com/sanonone/kektordb/pkg/textanalyzer"
 	"pgregory.net/rapid"
@@ -39,7 +40,8 @@ import (
 
 const (
 	c09Index = "tx"
-	c09Field = "content"
+	c09Field = "content" // the field the engine's hybrid search uses
+	c09Title = "title"   // a second, independently indexed text field
 	c09K1    = 1.2
 	c09B     = 0.75
 	c09BigK  = 64
@@ -56,7 +58,7 @@ var c09Vocab = []string{
 var c09Outside = []string{"zebra", "giraffa"}
 
 type c09Op struct {
-	K       string    `json:"k"` // add | text | nontext | other | del | snapshot | rewrite | restart | compress
+	K       string    `json:"k"` // add | batch | text | nontext | other | del | snapshot | rewrite | restart | compress
 	ID      string    `json:"id,omitempty"`
 	Vec     []float32 `json:"vec,omitempty"`
 	HasText bool      `json:"has_text,omitempty"`
@@ -64,13 +66,37 @@ type c09Op struct {
 	Alt     string    `json:"alt,omitempty"` // nontext: num | bool | list | null
 	HasN    bool      `json:"has_n,omitempty"`
 	N       float64   `json:"n,omitempty"`
+	Items   []c09Op   `json:"items,omitempty"` // batch: "add" ops inserted with one VAddBatch
+	// Field: text / nontext act on this field ("" = content); HasTitle/Title: add also sets the second text field
+	Field    string `json:"field,omitempty"`
+	HasTitle bool   `json:"has_title,omitempty"`
+	Title    string `json:"title,omitempty"`
 }
+
+func (o c09Op) field() string {
+	if o.Field == "" {
+		return c09Field
+	}
+	return o.Field
+}
+
+var c09Fields = []string{c09Field, c09Title}
 
 type c09Query struct {
 	Text  string    `json:"text"`
 	Alpha float64   `json:"alpha"`
 	Vec   []float32 `json:"vec"`
 	TopK  int       `json:"top_k"` // k of the text-only engine search (may be smaller than the number of matches)
+	// Contains: pass the text query as the documented filter clause CONTAINS(content, '...') instead of the explicit text-query argument
+	Contains bool `json:"contains,omitempty"`
+}
+
+// args returns the (filter, explicit text query) pair that carries the text query to the engine.
+func (q c09Query) args() (filter, text string) {
+	if q.Contains {
+		return "CONTAINS(" + c09Field + ", '" + q.Text + "')", ""
+	}
+	return "", q.Text
 }
 
 type c09Case struct {
@@ -219,6 +245,9 @@ func (o c09Op) addMeta() map[string]any {
 	if o.HasText {
 		m[c09Field] = o.Text
 	}
+	if o.HasTitle {
+		m[c09Title] = o.Title
+	}
 	if o.HasN {
 		m["n"] = o.N
 	}
@@ -231,9 +260,9 @@ func (o c09Op) addMeta() map[string]any {
 func (o c09Op) setProps() map[string]any {
 	switch o.K {
 	case "text":
-		return map[string]any{c09Field: o.Text}
+		return map[string]any{o.field(): o.Text}
 	case "nontext":
-		return map[string]any{c09Field: c09AltValue(o.Alt, o.N)}
+		return map[string]any{o.field(): c09AltValue(o.Alt, o.N)}
 	case "other":
 		return map[string]any{"n": o.N}
 	}
@@ -247,6 +276,15 @@ func (m *c09Model) valid(o c09Op, metric string) bool {
 	case "add":
 		_, live := m.Live[o.ID]
 		return !live && o.ID != ""
+	case "batch":
+		seen := map[string]bool{}
+		for _, it := range o.Items {
+			if _, live := m.Live[it.ID]; live || it.ID == "" || seen[it.ID] || it.K != "add" {
+				return false
+			}
+			seen[it.ID] = true
+		}
+		return len(o.Items) > 0
 	case "text", "nontext", "other", "del":
 		_, live := m.Live[o.ID]
 		return live
@@ -272,9 +310,17 @@ func (m *c09Model) apply(o c09Op, metric string) string {
 		}
 		m.Live[o.ID] = &c09MDoc{Vec: append([]float32(nil), o.Vec...), Meta: meta}
 		return ev
+	case "batch":
+		ev := "batch-insert"
+		for _, it := range o.Items {
+			if m.apply(it, metric) == "re-add" {
+				ev = "re-add"
+			}
+		}
+		return ev
 	case "text", "nontext", "other":
 		d := m.Live[o.ID]
-		old, had := d.Meta[c09Field]
+		old, had := d.Meta[o.field()]
 		_, oldStr := old.(string)
 		for k, v := range o.setProps() {
 			d.Meta[k] = v
@@ -302,6 +348,9 @@ func (m *c09Model) apply(o c09Op, metric string) string {
 	case "del":
 		d := m.Live[o.ID]
 		_, oldStr := d.Meta[c09Field].(string)
+		if _, t := d.Meta[c09Title].(string); t {
+			oldStr = true
+		}
 		delete(m.Live, o.ID)
 		m.Gone[o.ID] = true
 		if oldStr {
@@ -319,10 +368,10 @@ func (m *c09Model) apply(o c09Op, metric string) string {
 	return o.K
 }
 
-func (m *c09Model) texts() map[string]string {
+func (m *c09Model) texts(field string) map[string]string {
 	out := map[string]string{}
 	for id, d := range m.Live {
-		if s, ok := d.Meta[c09Field].(string); ok {
+		if s, ok := d.Meta[field].(string); ok {
 			out[id] = s
 		}
 	}
@@ -352,6 +401,9 @@ func c09Classify(c c09Case) (labels []string, nontrivial bool) {
 		}
 		if len(qterms[i]) >= 2 {
 			lab["query>=2-terms"] = true
+		}
+		if q.Contains {
+			lab["query-as-CONTAINS-filter"] = true
 		}
 	}
 	for _, o := range c.Ops {
@@ -383,7 +435,10 @@ func c09Classify(c c09Case) (labels []string, nontrivial bool) {
 		if (o.K == "compress" || o.K == "snapshot" || o.K == "rewrite") && mutated {
 			lab["admin-after-mutation"] = true
 		}
-		corp := c09BuildCorpus(an, m.texts())
+		corp := c09BuildCorpus(an, m.texts(c09Field))
+		if len(m.texts(c09Title)) > 0 {
+			lab["second-text-field-populated"] = true
+		}
 		for _, d := range corp.Len {
 			if d == 0 {
 				lab["doc-with-zero-tokens"] = true
@@ -496,10 +551,11 @@ func c09GenQuery(t *rapid.T, an textanalyzer.Analyzer, dim int, hot []string) c0
 	if rapid.IntRange(0, 2).Draw(t, "smallk") == 0 {
 		topk = rapid.IntRange(1, 5).Draw(t, "topk")
 	}
-	return c09Query{Text: strings.Join(words, " "), Alpha: alpha, Vec: c09GenVec(t, dim, "qv"), TopK: topk}
+	return c09Query{Text: strings.Join(words, " "), Alpha: alpha, Vec: c09GenVec(t, dim, "qv"), TopK: topk,
+		Contains: rapid.IntRange(0, 3).Draw(t, "contains") == 0}
 }
 
-func c09GenCase(maxIDs int, withAdmin bool) *rapid.Generator[c09Case] {
+func c09GenCase(maxIDs, maxMut int, withAdmin bool) *rapid.Generator[c09Case] {
 	return rapid.Custom(func(t *rapid.T) c09Case {
 		c := c09Case{
 			Lang:   rapid.SampledFrom([]string{"english", "italian"}).Draw(t, "lang"),
@@ -519,6 +575,13 @@ func c09GenCase(maxIDs int, withAdmin bool) *rapid.Generator[c09Case] {
 		for i := range ids {
 			ids[i] = fmt.Sprintf("d%02d", i)
 		}
+		twoFields := rapid.IntRange(0, 2).Draw(t, "twofields") == 0
+		genField := func() string {
+			if twoFields && rapid.IntRange(0, 2).Draw(t, "ontitle") == 0 {
+				return c09Title
+			}
+			return ""
+		}
 		m := c09NewModel()
 		push := func(o c09Op) {
 			m.apply(o, c.Metric)
@@ -532,6 +595,9 @@ func c09GenCase(maxIDs int, withAdmin bool) *rapid.Generator[c09Case] {
 			if rapid.IntRange(0, 3).Draw(t, "hasn") == 0 {
 				o.HasN, o.N = true, float64(rapid.IntRange(-3, 3).Draw(t, "n"))
 			}
+			if twoFields && rapid.IntRange(0, 1).Draw(t, "hastitle") == 0 {
+				o.HasTitle, o.Title = true, c09GenText(t, hot)
+			}
 			return o
 		}
 		// initial corpus
@@ -543,7 +609,7 @@ func c09GenCase(maxIDs int, withAdmin bool) *rapid.Generator[c09Case] {
 			push(genAdd(ids[i]))
 		}
 		// history
-		nMut := rapid.IntRange(1, 18).Draw(t, "nmut")
+		nMut := rapid.IntRange(1, maxMut).Draw(t, "nmut")
 		for i := 0; i < nMut; i++ {
 			var free, gone, live []string
 			for _, id := range ids {
@@ -569,6 +635,9 @@ func c09GenCase(maxIDs int, withAdmin bool) *rapid.Generator[c09Case] {
 			if len(free) > 0 {
 				ch = append(ch, choice{"add", 2})
 			}
+			if len(free)+len(gone) >= 2 {
+				ch = append(ch, choice{"batch", 2})
+			}
 			if withAdmin {
 				ch = append(ch, choice{"snapshot", 2}, choice{"restart", 3}, choice{"rewrite", 1})
 				if m.Prec == "float32" && len(m.Live) > 0 {
@@ -590,9 +659,9 @@ func c09GenCase(maxIDs int, withAdmin bool) *rapid.Generator[c09Case] {
 			}
 			switch kind {
 			case "text":
-				push(c09Op{K: "text", ID: rapid.SampledFrom(live).Draw(t, "id"), Text: c09GenText(t, hot)})
+				push(c09Op{K: "text", ID: rapid.SampledFrom(live).Draw(t, "id"), Text: c09GenText(t, hot), Field: genField()})
 			case "nontext":
-				push(c09Op{K: "nontext", ID: rapid.SampledFrom(live).Draw(t, "id"),
+				push(c09Op{K: "nontext", ID: rapid.SampledFrom(live).Draw(t, "id"), Field: genField(),
 					Alt: rapid.SampledFrom([]string{"num", "bool", "list", "null"}).Draw(t, "alt"), N: float64(rapid.IntRange(-3, 3).Draw(t, "n"))})
 			case "other":
 				push(c09Op{K: "other", ID: rapid.SampledFrom(live).Draw(t, "id"), N: float64(rapid.IntRange(-3, 3).Draw(t, "n"))})
@@ -602,6 +671,14 @@ func c09GenCase(maxIDs int, withAdmin bool) *rapid.Generator[c09Case] {
 				push(genAdd(rapid.SampledFrom(gone).Draw(t, "id")))
 			case "add":
 				push(genAdd(free[0]))
+			case "batch":
+				cand := append(append([]string{}, gone...), free...)
+				n := rapid.IntRange(2, min(4, len(cand))).Draw(t, "nbatch")
+				o := c09Op{K: "batch"}
+				for j := 0; j < n; j++ {
+					o.Items = append(o.Items, genAdd(cand[j]))
+				}
+				push(o)
 			default:
 				push(c09Op{K: kind})
 			}
@@ -637,9 +714,11 @@ func c09Run(c c09Case, seed int64, counts map[string]int) (msg string) {
 	x := &c09Exec{c: c, dir: filepath.Join(dir, "data"), m: c09NewModel(), an: c09Analyzer(c.Lang), counts: counts}
 	seen := map[string]bool{}
 	for _, o := range c.Ops {
-		if o.ID != "" && !seen[o.ID] {
-			seen[o.ID] = true
-			x.ids = append(x.ids, o.ID)
+		for _, it := range append([]c09Op{o}, o.Items...) {
+			if it.ID != "" && !seen[it.ID] {
+				seen[it.ID] = true
+				x.ids = append(x.ids, it.ID)
+			}
 		}
 	}
 	sort.Strings(x.ids)
@@ -669,6 +748,12 @@ func c09Run(c c09Case, seed int64, counts map[string]int) (msg string) {
 		switch o.K {
 		case "add":
 			err = x.e.VAdd(c09Index, o.ID, append([]float32(nil), o.Vec...), o.addMeta())
+		case "batch":
+			items := make([]types.BatchObject, len(o.Items))
+			for j, it := range o.Items {
+				items[j] = types.BatchObject{Id: it.ID, Vector: append([]float32(nil), it.Vec...), Metadata: it.addMeta()}
+			}
+			err = x.e.VAddBatch(c09Index, items)
 		case "text", "nontext", "other":
 			err = x.e.VSetMetadata(c09Index, o.ID, o.setProps())
 		case "del":
@@ -765,7 +850,7 @@ func (x *c09Exec) checkpoint() string {
 		return "harness: index is not an HNSW index"
 	}
 	// ---- current data, as the engine itself reports it
-	texts := map[string]string{}
+	textsOf := map[string]map[string]string{c09Field: {}, c09Title: {}}
 	vecs := map[string][]float32{}
 	iid := map[string]uint32{}
 	ext := map[uint32]string{}
@@ -788,8 +873,10 @@ func (x *c09Exec) checkpoint() string {
 		}
 		iid[id], ext[n] = n, id
 		vecs[id] = append([]float32(nil), vd.Vector...)
-		if s, ok := vd.Metadata[c09Field].(string); ok {
-			texts[id] = s
+		for _, f := range c09Fields {
+			if s, ok := vd.Metadata[f].(string); ok {
+				textsOf[f][id] = s
+			}
 		}
 	}
 	if diverged {
@@ -798,13 +885,34 @@ func (x *c09Exec) checkpoint() string {
 		x.count("rt:checkpoint-data-differs-from-model")
 	}
 	x.count("rt:checkpoints")
-	corp := c09BuildCorpus(x.an, texts)
+	corp := c09BuildCorpus(x.an, textsOf[c09Field])
+	if m := x.whiteBox(c09Field, corp, textsOf[c09Field], iid, ext); m != "" {
+		return m
+	}
+	// the second text field has its own postings and counters and must not be disturbed by the first
+	tcorp := c09BuildCorpus(x.an, textsOf[c09Title])
+	if m := x.whiteBox(c09Title, tcorp, textsOf[c09Title], iid, ext); m != "" {
+		return m
+	}
+	for qi, q := range x.c.Queries {
+		terms := x.an.Analyze(q.Text)
+		if !c09Distinct(terms) {
+			continue
+		}
+		if m := x.checkText(c09Title, q, tcorp.Scores(terms), iid, ext); m != "" {
+			return fmt.Sprintf("query %d %q on field %q: %s", qi, q.Text, c09Title, m)
+		}
+	}
+	return x.probes(corp, iid, ext, vecs)
+}
 
-	// ---- white-box: corpus counters and postings
+// whiteBox: corpus counters and posting lists of one field equal the recomputed ones (read-only).
+func (x *c09Exec) whiteBox(field string, corp *c09Corpus, texts map[string]string, iid map[string]uint32, ext map[uint32]string) string {
 	if os.Getenv("VERIF_C09_NOWHITEBOX") != "" {
 		// sensitivity experiments only: shows what the black-box score checks catch on their own
-		return x.probes(corp, iid, ext, vecs)
+		return ""
 	}
+	c09Field := field
 	st, err := c09ReadStats(x.e.DB, c09Index, c09Field)
 	if err != nil {
 		return "harness: " + err.Error()
@@ -869,7 +977,7 @@ func (x *c09Exec) checkpoint() string {
 		}
 	}
 
-	return x.probes(corp, iid, ext, vecs)
+	return ""
 }
 
 func (x *c09Exec) probes(corp *c09Corpus, iid map[string]uint32, ext map[uint32]string, vecs map[string][]float32) string {
@@ -880,7 +988,7 @@ func (x *c09Exec) probes(corp *c09Corpus, iid map[string]uint32, ext map[uint32]
 			continue
 		}
 		want := corp.Scores(terms)
-		if m := x.checkText(q, want, iid, ext); m != "" {
+		if m := x.checkText(c09Field, q, want, iid, ext); m != "" {
 			return fmt.Sprintf("query %d %q: %s", qi, q.Text, m)
 		}
 		if corp.Total > 0 {
@@ -908,8 +1016,8 @@ func c09Stale(dl map[uint32]int64, ext map[uint32]string, texts map[string]strin
 }
 
 // checkText: DB.FindIDsByTextSearch == reference (set, scores, order).
-func (x *c09Exec) checkText(q c09Query, want map[string]float64, iid map[string]uint32, ext map[uint32]string) string {
-	res, err := x.e.DB.FindIDsByTextSearch(c09Index, c09Field, q.Text)
+func (x *c09Exec) checkText(field string, q c09Query, want map[string]float64, iid map[string]uint32, ext map[uint32]string) string {
+	res, err := x.e.DB.FindIDsByTextSearch(c09Index, field, q.Text)
 	if err != nil {
 		return "FindIDsByTextSearch returned an error: " + err.Error()
 	}
@@ -942,7 +1050,7 @@ func (x *c09Exec) checkText(q c09Query, want map[string]float64, iid map[string]
 		}
 	}
 	if len(want) >= 2 {
-		x.count("rt:text-check-with>=2-matches")
+		x.count("rt:text-check-with>=2-matches(" + field + ")")
 	}
 	return ""
 }
@@ -958,7 +1066,8 @@ func (x *c09Exec) checkEngineTextOnly(q c09Query, want map[string]float64) strin
 	if q.TopK < n {
 		n = q.TopK
 	}
-	res, err := x.e.VSearchGraph(c09Index, qv, q.TopK, "", q.Text, 100, q.Alpha, nil, false, nil)
+	filter, text := q.args()
+	res, err := x.e.VSearchGraph(c09Index, qv, q.TopK, filter, text, 100, q.Alpha, nil, false, nil)
 	if err != nil {
 		return "VSearchGraph returned an error: " + err.Error()
 	}
@@ -983,7 +1092,7 @@ func (x *c09Exec) checkEngineTextOnly(q c09Query, want map[string]float64) strin
 		}
 	}
 	// the id-only API must give the same ranking
-	ids, err := x.e.VSearch(c09Index, qv, q.TopK, "", q.Text, 100, q.Alpha, nil)
+	ids, err := x.e.VSearch(c09Index, qv, q.TopK, filter, text, 100, q.Alpha, nil)
 	if err != nil {
 		return "VSearch returned an error: " + err.Error()
 	}
@@ -1068,7 +1177,8 @@ func (x *c09Exec) checkHybrid(q c09Query, want map[string]float64, corp *c09Corp
 			}
 		}
 	}
-	hres, err := x.e.VSearchGraph(c09Index, q.Vec, c09BigK, "", q.Text, 100, q.Alpha, nil, false, nil)
+	filter, text := q.args()
+	hres, err := x.e.VSearchGraph(c09Index, q.Vec, c09BigK, filter, text, 100, q.Alpha, nil, false, nil)
 	if err != nil {
 		return "hybrid VSearchGraph returned an error: " + err.Error()
 	}
@@ -1150,7 +1260,7 @@ func (x *c09Exec) checkHybrid(q c09Query, want map[string]float64, corp *c09Corp
 
 // ------------------------------------------------------------------ entry point
 
-const c09EngineRule = "rapid-generated histories on one text-enabled index (english/italian analyser, euclidean/cosine, float32, M=16): an initial corpus of 1-25 documents with 0-8-word texts over a 34-word English/Italian vocabulary (stop words, inflections, case variants, repeats, documents without the field) followed by 1-18 ops out of overwrite of the text / change of the field to number, bool, list or null / update of another field / delete / re-add of a deleted id / new insert / SaveSnapshot / RewriteAOF / Close+Open / VCompress (float16 or int8); 1-3 probes (1-4 query words with distinct analysed terms incl. stop words and out-of-corpus words, alpha in {0,1,0.5,random}, query vector, top-k) are evaluated after EVERY op against BM25 recomputed from scratch from the VGet read-out; non-trivial = at some check point after >= 1 overwrite / string-to-non-string change / delete of an indexed text, some query matches >= 2 documents"
+const c09EngineRule = "rapid-generated histories on one text-enabled index (english/italian analyser, euclidean/cosine, float32, M=16): an initial corpus of 1-25 documents with 0-8-word texts over a 34-word English/Italian vocabulary (stop words, inflections, case variants, repeats, documents without the field; one case in three also maintains a second text field 'title') followed by 1-18 ops (1-40 in the thorough tier) out of overwrite of the text / change of the field to number, bool, list or null / update of another field / delete / re-add of a deleted id / new insert / VAddBatch of 2-4 new or re-added ids / SaveSnapshot / RewriteAOF / Close+Open / VCompress (float16 or int8); 1-3 probes (1-4 query words with distinct analysed terms incl. stop words and out-of-corpus words, alpha in {0,1,0.5,random}, query vector, top-k) are evaluated after EVERY op against BM25 recomputed from scratch from the VGet read-out; non-trivial = at some check point after >= 1 overwrite / string-to-non-string change / delete of an indexed text, some query matches >= 2 documents"
 
 func TestVerif_C09_engine(t *testing.T) {
 	col := verifkit.New("C09", "engine", c09EngineRule)
@@ -1179,9 +1289,13 @@ func TestVerif_C09_engine(t *testing.T) {
 		}
 		return
 	}
-	verifkit.RapidSetup(400, 6000)
+	verifkit.RapidSetup(600, 30000)
+	maxMut := 18
+	if verifkit.Thorough() {
+		maxMut = 40 // longer histories: more room for drift of the incremental statistics
+	}
 	rapid.Check(t, func(rt *rapid.T) {
-		c := c09GenCase(25, true).Draw(rt, "case")
+		c := c09GenCase(25, maxMut, true).Draw(rt, "case")
 		labels, nt := c09Classify(c)
 		h := verifkit.Hash(c)
 		col.CaseH(h, c, nt, labels...)
